@@ -243,6 +243,27 @@ pub fn clip_degenerate(t: &[V4; 3]) -> Option<([f64; 4], [f64; 4])> {
     Some(if d01 >= d02 && d01 >= d12 { (v[0], v[1]) } else if d02 >= d12 { (v[0], v[2]) } else { (v[1], v[2]) })
 }
 
+/// The exact visible part of one triangle: screen-space polygon (vertex order follows the triangle's own
+/// vertex order, so its signed area is the on-screen winding of what is seen) and the range of w over it.
+pub fn visible_screen_polygon(t: &[V4; 3], vp: (u32, u32, u32, u32)) -> Option<(Vec<[f64; 2]>, (f64, f64))> {
+    if clip_degenerate(t).is_some() { return None; }
+    let (l, tp, r, b) = vp;
+    let poly = visible_polygon(t);
+    if poly.len() < 3 { return None; }
+    let v: [[f64; 4]; 3] = t.map(|p| p.map(|c| c as f64));
+    let mut out = vec![];
+    let (mut w0, mut w1) = (f64::MAX, f64::MIN);
+    for uv in &poly {
+        let lam = [1.0 - uv[0] - uv[1], uv[0], uv[1]];
+        let p: Vec<f64> = (0..4).map(|c| (0..3).map(|k| lam[k] * v[k][c]).sum()).collect();
+        if p[3] <= 1e-12 { return None; }
+        w0 = w0.min(p[3]); w1 = w1.max(p[3]);
+        out.push([l as f64 + (p[0] / p[3] + 1.0) / 2.0 * (r as f64 - l as f64), tp as f64 + (p[1] / p[3] + 1.0) / 2.0 * (b as f64 - tp as f64)]);
+    }
+    Some((out, (w0, w1)))
+}
+pub fn polygon_area(p: &[[f64; 2]]) -> f64 { (0..p.len()).map(|k| { let (a, b) = (p[k], p[(k + 1) % p.len()]); a[0] * b[1] - a[1] * b[0] }).sum::<f64>() / 2.0 }
+
 /// Screen-space boundary segments of each triangle's exact visible part.
 fn silhouette_edges(scene: &Scene) -> Vec<([f64; 2], [f64; 2])> {
     let (l, t, r, b) = scene.vp;
